@@ -631,7 +631,7 @@ func flatCatalogues(c *Ctx) (singles, pairs []gen.Feature) {
 	repContent := map[string]bool{"primitive": true, "object": true, "tuple": true, "refLocal[pet owner]": true, "refAux[pet]": true, "refAuxDeep": true,
 		"selfRecursiveAux": true, "arrayOfItself": true, "pointer[properties,complex]": true, "pointer[items,simple]": true,
 		"collidingImport[sameName]": true, "collidingImport[twoAtOnce]": true, "collidingImport[sameNameSimple]": true,
-		"twoImportsCaseDifferent": true, "twoImportsSameNameTwoFiles": true,
+		"twoImportsCaseDifferent": true, "twoImportsSameNameTwoFiles": true, "nestedObjects3": true, "objectWithRefsAndInline": true,
 		"pointer[properties,refAuxCollide]": true, "pointer[items,refAux]": true, "selfRecursiveAuxColliding[simple]": true}
 	pairs = gen.Catalogue(three, func(hn string) bool { return rep[hn] }, func(ct gen.Content) bool { return repContent[ct.Label] })
 	for _, f := range gen.OtherFeatures(three) {
